@@ -266,13 +266,22 @@ def extract(ctx, finfo, grid_param, mean_param, np_aliases=("np", "numpy")):
                 facts.zero = n
     # ---- cumulative sum and shift: analyse the returned name
     rv = ret.value
+    in_return = None
+    if isinstance(rv, ast.BinOp):
+        # return CURVE + (requested - CURVE.mean()): the shift is applied in the return expression itself
+        cands = sorted({n.id for n in ast.walk(rv) if isinstance(n, ast.Name) and isinstance(n.ctx, ast.Load) and n.id != mean_param
+                        and n.id not in ("np", "numpy")})
+        if len(cands) == 1:
+            in_return = ast.Assign(targets=[ast.Name(id=cands[0], ctx=ast.Store())], value=rv)
+            ast.copy_location(in_return, ret)
+            rv = next(n for n in ast.walk(rv) if isinstance(n, ast.Name) and n.id == cands[0])
     if not isinstance(rv, ast.Name):
         return None, [("indet", ret, "return value is not a simple name")]
     cname = rv.id
     facts.curve = cname
     cdefs = sorted(flow.reaching_defs(rv) or ())
     base = None
-    shifts = []
+    shifts = [in_return] if in_return is not None else []
     for d in cdefs:
         st = flow.cfg.stmt_of.get(d)
         if isinstance(st, ast.AugAssign):
@@ -309,7 +318,7 @@ def extract(ctx, finfo, grid_param, mean_param, np_aliases=("np", "numpy")):
                 and base.value.func.value.id == darr and not base.value.args:
             facts.cumsum_ok = True
     facts.shift = shifts[0] if len(shifts) == 1 else None
-    facts.shift_unconditional = facts.shift is not None and flow.cfg.dominates(flow.cfg.node(facts.shift), flow.cfg.node(ret))
+    facts.shift_unconditional = facts.shift is not None and (facts.shift is in_return or flow.cfg.dominates(flow.cfg.node(facts.shift), flow.cfg.node(ret)))
     facts.shift_ok = False
     facts.shift_desc = "no single shift statement"
     if facts.shift is not None:
